@@ -10,9 +10,16 @@
 //! (source, per-source sequence number, keystream filler), so every `SendToBackend` identifies
 //! the datagram it carries independently of the operation that triggered it.
 //!
-//! Part (b) (real sockets through a worker) is not in this file: `run` only calls `run_manager`.
+//! Part (b): real UDP sockets through a live worker (`c19_udp/live.rs`: `run_live`; scenario in
+//! `script.rs`, cell driver in `cell.rs`, scripted peers in `wire.rs`, oracles in `judge.rs`).
+//! `run` calls both and merges them into one report; the keys added by part (b) are `b.*`.
 
+mod cell;
+mod judge;
 mod lab;
+mod live;
+mod script;
+mod wire;
 
 use serde_json::{Value, json};
 
@@ -415,8 +422,28 @@ pub fn run_manager(ctx: &Ctx, rep: &mut Report) {
 pub fn run(ctx: &Ctx) -> Report {
     let mut rep = Report::new(
         "exploration",
-        "seeded histories of ~2000 concrete operations on one UdpManager (client datagrams from <=4 IPs x <=4 ports, backend datagrams on live/closed/unbound ids, immediate/late/duplicate/stale BackendResolved, clock advances through an emulated shell timer incl. exact deadlines, SetMaxFlows below the live count, SetCluster incl. affinity-mode flips and empty cluster, SetMaxRxDatagramSize, Drain + rebuild, abort_flow, close_all; IPv4 and IPv6; PPv2 off/first/every; requests/responses limits); every Output is folded into a reference model of flows; a case is non-trivial when it created >= 2 flows and closed >= 1; distinct = distinct (scenario, op-kind sequence)",
+        "(a) seeded histories of ~2000 concrete operations on one UdpManager (client datagrams from <=4 IPs x <=4 ports, backend datagrams on live/closed/unbound ids, immediate/late/duplicate/stale BackendResolved, clock advances through an emulated shell timer incl. exact deadlines, SetMaxFlows below the live count, SetCluster incl. affinity-mode flips and empty cluster, SetMaxRxDatagramSize, Drain + rebuild, abort_flow, close_all; IPv4 and IPv6; PPv2 off/first/every; requests/responses limits); every Output is folded into a reference model of flows; a case is non-trivial when it created >= 2 flows and closed >= 1; distinct = distinct (scenario, op-kind sequence). (b) cells = one live worker with one UDP listener on a private loopback IP, 2-3 scripted UDP backends, 10-30 scripted client sockets on several source IPs/ports, seeded scripts of back-to-back bursts interleaving new and established sources, cap-full windows, idle expiry, runtime reconfiguration (affinity flip, max_flows below the live count, timeouts, rx size, backend add/remove, listener deactivation, soft stop); self-describing datagrams judged at the sockets; a cell is non-trivial when >= 10 client and >= 5 backend datagrams were delivered over >= 2 flows",
     );
-    run_manager(ctx, &mut rep);
+    // replay files name the part in each witness
+    let (replay_a, replay_b) = match &ctx.replay {
+        Some(path) => {
+            let v: Value = serde_json::from_str(&std::fs::read_to_string(path).unwrap_or_default()).unwrap_or(Value::Null);
+            let ws = v["witnesses"].as_array().cloned().unwrap_or_default();
+            (ws.iter().any(|w| w["part"] != "b"), ws.iter().any(|w| w["part"] == "b"))
+        }
+        None => (true, true),
+    };
+    if replay_a {
+        // part (a) gets ~40% of the budget, part (b) the rest
+        let mut actx = ctx.clone();
+        actx.budget = ctx.budget.mul_f64(0.4);
+        if ctx.replay.is_none() && ctx.opt("cases").is_none() {
+            actx.opts.insert("cases".into(), ctx.tier.pick(20_000u64, 2_000_000).to_string());
+        }
+        run_manager(&actx, &mut rep);
+    }
+    if replay_b && ctx.opt("skip_live").is_none() {
+        live::run_live(ctx, &mut rep);
+    }
     rep
 }
